@@ -41,6 +41,16 @@ def W4():
     ]
 
 
+def W5():
+    """extreme geometries: three-digit columns, 26 rows, 26 virtual rows, single-well labware"""
+    return [
+        plate("P", 2, 101, 0, 2000, 500),
+        plate("Q", 26, 2, 0, 200, 0),
+        trough("T", 26, 1, 100, 100000, 50000),
+        plate("U", 1, 1, 0, 500, 250),
+    ]
+
+
 def callers_arrays_unchanged(W, config):
     """arrays the 'caller' handed to the constructors (spec np=True / share=tag) still hold the initial values"""
     bad = []
